@@ -109,12 +109,15 @@ theorem leBytes4_mod (n : Nat) : leBytes 4 n = leBytes 4 (n % 4294967296) := by
   have h4 : n / 256 / 256 / 256 % 256 = n % 4294967296 / 256 / 256 / 256 % 256 := by omega
   rw [h1, h2, h3, h4]
 
-/-- the reader's `struct.pack("<L", uint_value(P, 32))` is the writer's two's-complement P. -/
-theorem pBytes_eq (p : Int) (hp : -4294967296 ≤ p) : leBytes 4 (uintValue32 p) = pBytes p := by
+/-- the reader's `struct.pack("<L", uint_value(P, 32) & 0xFFFFFFFF)` is the writer's two's-complement
+    P, for every integer P. -/
+theorem pBytes_eq (p : Int) : leBytes 4 (uintValue32 p) = pBytes p := by
   unfold pBytes uintValue32
-  rw [leBytes4_mod]
   congr 1
   split <;> omega
+
+theorem uintValue32_lt (p : Int) : uintValue32 p < 4294967296 := by
+  unfold uintValue32; split <;> omega
 
 /-! ### the reader's key derivation is Algorithm 2 -/
 
@@ -243,5 +246,64 @@ theorem alg2Key_length (P : Prims) (hmd5 : ∀ x, (P.md5 x).length = 16) (c : Cf
   unfold alg2Key
   simp only [hr, if_true]
   rw [show (50 : Nat) = 49 + 1 from rfl, iter_succ', List.length_take, hmd5]
+
+end PdfVerif.Crypt
+
+namespace PdfVerif.Crypt
+open PdfVerif PdfVerif.Gen.Crypt PdfVerif.CryptWriter
+
+/-! ### `_r6_password` is ISO 32000-2 Algorithm 2.B -/
+
+/-- `_bytes_mod_3` (sum of the bytes' residues) is the big-endian integer modulo 3 (256 ≡ 1). -/
+theorem bytesMod3_eq (bs : Bytes) :
+    bytesMod3 bs = bs.foldl (fun acc b => (acc * 256 + b.toNat) % 3) 0 := by
+  unfold bytesMod3
+  have gen : ∀ (l : Bytes) (a c : Nat), a % 3 = c % 3 →
+      (l.foldl (fun acc b => acc + b.toNat % 3) a) % 3
+        = (l.foldl (fun acc b => (acc * 256 + b.toNat) % 3) c) % 3 := by
+    intro l
+    induction l with
+    | nil => intro a c h; simpa using h
+    | cons x xs ih =>
+      intro a c h
+      simp only [List.foldl_cons]
+      apply ih
+      omega
+  have h := gen bs 0 0 rfl
+  have hlt : ∀ (l : Bytes) (c : Nat), c < 3 →
+      l.foldl (fun acc b => (acc * 256 + b.toNat) % 3) c < 3 := by
+    intro l
+    induction l with
+    | nil => intro c hc; simpa using hc
+    | cons x xs ih => intro c hc; simp only [List.foldl_cons]; apply ih; omega
+  have := hlt bs 0 (by omega)
+  rw [h]; omega
+
+/-- The loop of `_r6_password` - with its regenerated `while` condition `r6_continue` and repeat
+    count - is the loop of Algorithm 2.B. -/
+theorem r6Loop_eq_alg2B (P : Prims) (pw vec : Bytes) (fuel round last : Nat) (k : Bytes) :
+    r6Loop P pw vec fuel round last k = alg2BLoop P pw vec fuel round last k := by
+  induction fuel generalizing round last k with
+  | zero => rfl
+  | succ n ih =>
+    unfold r6Loop alg2BLoop
+    have hc : r6_continue (round : Int) (last : Int) = true ↔ ¬ (round ≥ 64 ∧ last + 32 ≤ round) := by
+      unfold r6_continue
+      simp only [decide_eq_true_eq]
+      omega
+    by_cases h : round ≥ 64 ∧ last + 32 ≤ round
+    · have : r6_continue (round : Int) (last : Int) = false := by
+        cases hb : r6_continue (round : Int) (last : Int) with
+        | false => rfl
+        | true => exact absurd h (hc.mp hb)
+      simp only [this, Bool.false_eq_true, if_false, h, and_self, if_true]
+    · have : r6_continue (round : Int) (last : Int) = true := hc.mpr h
+      simp only [this, if_true, h, if_false, bytesMod3_eq, R6_REPEAT, ih]
+
+theorem r6_password_is_alg2B (P : Prims) (pw salt vec : Bytes) (hs : salt.length ≤ 8) :
+    passwordHash P 6 pw salt vec = alg2B P pw salt vec := by
+  unfold passwordHash alg2B
+  simp only [show ¬ ((6 : Int) = 5) by decide, if_false, r6Loop_eq_alg2B]
+  rw [List.take_of_length_le hs]
 
 end PdfVerif.Crypt
